@@ -19,7 +19,7 @@ func init() {
 			"(4) each method's ShouldDisrupt implies its documented literals (static/dynamic pool, ConsolidateAfter set, buffer pods, IsEmpty, policy ≠ WhenEmpty, Consolidatable / Drifted); only Drift and StaticDrift are Eventual; " +
 			"(5) Consolidatable is set true only when consolidateAfter is set, the NodeClaim is Initialized and not under the consolidateAfter window, and that window compares clock.Since(lastPodEvent|initialized) with consolidateAfter.",
 		NotCovered: []string{"freshness of the state the predicates read (narrowed only by the re-validation rows of C05/C06)", "PDB arithmetic inside pdb.Limits", "values of duration annotations"},
-		Rules: c07Rules,
+		Rules:      c07Rules,
 	})
 }
 
